@@ -30,22 +30,15 @@ theorem tokenLen_eq_decodeRaw_length (v : Vocab) (t : Nat) :
     omega
   · rfl
 
-/-- a committed step: a non-EOS token with the lexer-stack entries pushed for its bytes, or EOS -/
-inductive Cmt (LS : Type) where
-  | tok (t : Nat) (ls : List LS)
-  | eos (t : Nat) (extra : List LS)
+/-- a committed token with the lexer-stack entries pushed for its bytes (any token id: an EOS token
+the grammar consumes as a token is committed like every other special token) -/
+structure Cmt (LS : Type) where
+  t : Nat
+  ls : List LS
 
-def Cmt.token {LS} : Cmt LS → Nat
-  | .tok t _ => t
-  | .eos t _ => t
+def Cmt.WF {LS} (v : Vocab) (c : Cmt LS) : Prop := c.ls.length = (v.decodeRaw c.t).length
 
-def Cmt.WF {LS} (v : Vocab) : Cmt LS → Prop
-  | .tok t ls => v.eos.contains t = false ∧ ls.length = (v.decodeRaw t).length
-  | .eos t _ => v.eos.contains t = true
-
-def RState.apply {LS} (v : Vocab) (s : RState LS) : Cmt LS → RState LS
-  | .tok t ls => s.commit v t ls
-  | .eos t extra => s.commitEos t extra
+def RState.apply {LS} (v : Vocab) (s : RState LS) (c : Cmt LS) : RState LS := s.commit v c.t c.ls
 
 def RState.WF {LS} (s : RState LS) : Prop :=
   s.byteTok.length = s.pBytes.length ∧ s.llmBytes.length = s.pBytes.length ∧
@@ -53,41 +46,25 @@ def RState.WF {LS} (s : RState LS) : Prop :=
 
 theorem apply_decomp {LS} (v : Vocab) (cs : List (Cmt LS)) (s : RState LS)
     (hcs : ∀ c ∈ cs, c.WF v) :
-    ∃ (B : List Byte') (T : List Nat) (Ls : List LS) (st : Bool),
+    ∃ (B : List Byte') (T : List Nat) (Ls : List LS),
       cs.foldl (RState.apply v) s =
-        { tokens := s.tokens ++ cs.map Cmt.token, llmBytes := s.llmBytes ++ B,
+        { tokens := s.tokens ++ cs.map Cmt.t, llmBytes := s.llmBytes ++ B,
           pBytes := s.pBytes ++ B, byteTok := s.byteTok ++ T, lexStack := s.lexStack ++ Ls,
-          stopOk := st } ∧
-      T.length = B.length ∧ bytesToDrop v (cs.map Cmt.token) = B.length := by
+          stopOk := s.stopOk, bareEos := if cs = [] then s.bareEos else false } ∧
+      T.length = B.length ∧ ((cs.map Cmt.t).map v.tokenLen).sum = B.length := by
   induction cs generalizing s with
   | nil =>
-    refine ⟨[], [], [], s.stopOk, ?_, rfl, rfl⟩
+    refine ⟨[], [], [], ?_, rfl, rfl⟩
     simp
   | cons c cs ih =>
     have hc := hcs c List.mem_cons_self
-    obtain ⟨B, T, Ls, st, heq, h1, h3⟩ := ih (s.apply v c) (fun c' h => hcs c' (List.mem_cons_of_mem _ h))
-    cases c with
-    | tok t ls =>
-      obtain ⟨he, hl⟩ := hc
-      refine ⟨v.decodeRaw t ++ B, List.replicate (v.decodeRaw t).length s.tokens.length ++ T, ls ++ Ls, st, ?_, ?_, ?_⟩
-      · rw [List.foldl_cons, heq]
-        simp only [RState.apply, RState.commit, Cmt.token, List.map_cons,
-          List.append_assoc, List.singleton_append]
-      · simp [h1]
-      · have h3' : (List.map (fun t => if v.eos.contains t = true then 0 else v.tokenLen t) (List.map Cmt.token cs)).sum = B.length := h3
-        simp only [List.map_cons, Cmt.token, bytesToDrop, List.sum_cons, List.length_append, h3']
-        rw [tokenLen_eq_decodeRaw_length]
-        have he' : ¬ t ∈ v.eos := by simpa using he
-        simp [he']
-    | eos t extra =>
-      refine ⟨B, T, extra ++ Ls, st, ?_, h1, ?_⟩
-      · rw [List.foldl_cons, heq]
-        simp only [RState.apply, RState.commitEos, Cmt.token, List.map_cons,
-          List.append_assoc, List.singleton_append]
-      · have he : v.eos.contains t = true := hc
-        have h3' : (List.map (fun t => if v.eos.contains t = true then 0 else v.tokenLen t) (List.map Cmt.token cs)).sum = B.length := h3
-        simp only [List.map_cons, Cmt.token, bytesToDrop, List.sum_cons, h3']
-        have he' : t ∈ v.eos := by simpa using he
-        simp [he']
+    obtain ⟨B, T, Ls, heq, h1, h3⟩ := ih (s.apply v c) (fun c' h => hcs c' (List.mem_cons_of_mem _ h))
+    refine ⟨v.decodeRaw c.t ++ B, List.replicate (v.decodeRaw c.t).length s.tokens.length ++ T, c.ls ++ Ls, ?_, ?_, ?_⟩
+    · rw [List.foldl_cons, heq]
+      simp only [RState.apply, RState.commit, List.map_cons, List.append_assoc, List.singleton_append]
+      simp
+    · simp [h1]
+    · simp only [List.map_cons, List.sum_cons, List.length_append, h3]
+      rw [tokenLen_eq_decodeRaw_length]
 
 end LlgVerif
